@@ -392,6 +392,9 @@ func redactPipelineStage(stage interface{}, redactFieldNames bool, keyPath []str
 									newPipeline[i] = redactPipelineStage(stage, redactFieldNames, []string{}, isInSearchStage(stage))
 								}
 								newPipelineMap.Set(subK, newPipeline)
+							} else {
+								// not a pipeline: keep the key, redact whatever is there
+								newPipelineMap.Set(subK, redactPipelineStage(subV, redactFieldNames, []string{}, isInSearchStage(subV)))
 							}
 						}
 						newMap.Set(redactedKey, newPipelineMap)
